@@ -8,6 +8,7 @@
   timestamps); in the model the image holds the values themselves.
 -/
 import Proofs.Reopen
+import Proofs.Codec
 namespace Sod.Props
 open Sod
 
@@ -45,5 +46,31 @@ theorem C04_close_then_reopen {c : Coll} {l : Loaded} (h : Inv' c l) (hn : c.pen
 /-- after a restart ids are still never reused -/
 theorem C04_ids_not_reused {ix : ObjIndex} (h : ix.WF) : ∀ p ∈ ix.reload.ids, p.fst < ix.reload.next :=
   reload_next_fresh h
+
+/-! ### the decimal reader of the schema codec (the oracle that decides, in the `reopen` and
+    `simg` correspondence, whether the number text in schema.json denotes the indexed double) -/
+
+/-- no number text is accepted for an infinity or a NaN key -/
+theorem C04_decimal_nonfinite (d : Codec.Dec) (k : Int) (hk : k.natAbs / 2 ^ 52 ≥ 2047) :
+    Codec.decIsKey d k = false :=
+  Codec.decIsKey_nonfinite d k hk
+
+/-- an accepted text has the sign of the key, and key 0 is denoted exactly by a zero mantissa -/
+theorem C04_decimal_sign (d : Codec.Dec) (k : Int) (h0 : k ≠ 0) (h : Codec.decIsKey d k = true) :
+    d.neg = decide (k < 0) :=
+  Codec.decIsKey_sign d k h0 h
+
+theorem C04_decimal_zero (d : Codec.Dec) : Codec.decIsKey d 0 = (d.mant == 0) :=
+  Codec.decIsKey_zero d
+
+/-- the oracle is exact to the last bit inside a binade: one text never denotes two adjacent
+    positive doubles `n`, `n+1` with the same exponent — so an index value reloaded one ulp off
+    (the defect repaired by `fix: reload index values exactly`) cannot pass the comparison.
+    PARTIAL: adjacent keys across a binade boundary and negative keys are not covered by this
+    statement (they are exercised by `CodecTest` and the `reopen` profile only). -/
+theorem C04_decimal_adjacent_excl_partial (d : Codec.Dec) (n : Nat) (hn : 0 < n) (he : n / 2 ^ 52 < 2047)
+    (hm : n % 2 ^ 52 + 1 < 2 ^ 52) :
+    ¬ (Codec.decIsKey d (n : Int) = true ∧ Codec.decIsKey d ((n + 1 : Nat) : Int) = true) :=
+  Codec.decIsKey_adjacent_excl d n hn he hm
 
 end Sod.Props
